@@ -1541,7 +1541,11 @@ func directionField(c *Ctx, ctorObj *types.Func, typ *types.Named) (*types.Var, 
 	for i := 0; i < st.NumFields(); i++ {
 		key := fmt.Sprintf("a%p.f%d", obj, i)
 		a, b := vals[true][key], vals[false][key]
-		if a.Kind == "const" && b.Kind == "const" && !constant.Compare(a.C, token.EQL, b.C) {
+		differ := a.Kind == "const" && b.Kind == "const" && !constant.Compare(a.C, token.EQL, b.C)
+		if a.Kind == "func" && b.Kind == "func" && a.Fn != nil && b.Fn != nil && a.Fn != b.Fn {
+			differ = true // the direction kept as the function to apply (chosen once, in the constructor)
+		}
+		if differ {
 			if fld != nil {
 				return nil, nil
 			}
